@@ -47,14 +47,17 @@ def build_harness(race=False):
     os.makedirs(BUILD, exist_ok=True)
     gosum = os.path.join(HARNESS, "go.sum")
     shutil.copyfile(os.path.join(REPO, "go.sum"), gosum)
+    if os.path.realpath(REPO) != "/repo":
+        # a scratch tree gets its own binary so that it cannot disturb concurrent runs against /repo
+        key += "-" + hashlib.sha1(os.path.realpath(REPO).encode()).hexdigest()[:8]
     out = os.path.join(BUILD, key)
     cmd = ["go", "build", "-tags", "verif", "-o", out]
     if os.path.realpath(REPO) != "/repo":
         # VERIF_REPO=<worktree>: same harness, alternative go.mod whose replace points at that tree
-        alt = os.path.join(BUILD, "alt.mod")
+        alt = os.path.join(BUILD, key + ".mod")
         with open(alt, "w") as fh:
             fh.write(open(os.path.join(HARNESS, "go.mod")).read().replace("=> /repo", "=> " + os.path.realpath(REPO)))
-        shutil.copyfile(gosum, os.path.join(BUILD, "alt.sum"))
+        shutil.copyfile(gosum, os.path.join(BUILD, key + ".sum"))
         cmd.append("-modfile=" + alt)
     if race:
         cmd.append("-race")
